@@ -135,12 +135,24 @@ func replyOracle(c *Ctx, s *lifeSess, sigp, line string, lo, hi, f0 int, atMostO
 func (s *lifeSess) emitLog(c *Ctx) {
 	c.emit(s.logLine(), s.modelObs(), true)
 	c.emit(s.fidLine(false), s.fidObs(), true)
+	s.checkInUse(c)
 }
 
 // emitLogEnded: as emitLog, for a session whose connection is gone and whose goroutines have all ended.
 func (s *lifeSess) emitLogEnded(c *Ctx) {
 	c.emit(s.logLine(), s.modelObs(), true)
 	c.emit(s.fidLine(true), s.fidObs(), true)
+	s.checkInUse(c)
+}
+
+// the file server is never told that a fid is destroyed while it is working on a request on that fid
+func (s *lifeSess) checkInUse(c *Ctx) {
+	s.mu.Lock()
+	bad := append([]string{}, s.inUse...)
+	s.mu.Unlock()
+	if len(bad) > 0 {
+		c.oracleFail("C11/destroyed-in-use", strings.Join(bad, "; "), s.fidLine(true))
+	}
 }
 
 // waitEntered waits until each of the given requests has reached the implementation or —
@@ -358,6 +370,68 @@ func genC03(c *Ctx) {
 		c.emit(line, "*", true)
 	}
 	genC03rolling(c, 100000)
+	genC03lateWriter(c)
+}
+
+// A request cancelled by Tflush (FlushOp honoured) whose worker keeps going and fills its reply buffer
+// in place afterwards, while later requests have been answered and their replies are still waiting for a
+// client that reads slowly: every reply must carry what the implementation produced for its own request.
+func genC03lateWriter(c *Ctx) {
+	for k := 0; k < c.scale(30, 800) && !c.stop(); k++ {
+		i := 300000 + k
+		r := c.rng(i)
+		maxpend := []int{0, 1, 8, 64}[r.Intn(4)]
+		line := fmt.Sprintf("lifejudge C03 late-writer seed=%d maxpend=%d", i, maxpend)
+		c.begin(line)
+		s := newLifeSess(8192, maxpend, true)
+		ok := s.setup(6)
+		for fid := uint32(1); ok && fid <= 6; fid++ { // reads need open fids
+			f := s.rpc(1, func(fc *g.Fcall) error { return g.PackTopen(fc, fid, g.OREAD) })
+			ok = f != nil && f.typ == g.Ropen
+		}
+		if !ok {
+			c.oracleFail("C03/setup", "session set-up failed", line)
+			s.end()
+			continue
+		}
+		base := s.nreqs()
+		f0 := s.nframes()
+		s.mu.Lock()
+		s.plans[base] = plan{gate: true, honour: true, inplace: true, async: r.Intn(2) == 0}
+		s.mu.Unlock()
+		s.write(s.send(7, func(fc *g.Fcall) error { return g.PackTread(fc, 1, 0, 64) }))
+		s.waitEntered([]int{base}, f0, 5*time.Second)
+		if f := s.rpc(8, func(fc *g.Fcall) error { return g.PackTflush(fc, 7) }); f == nil || f.typ != g.Rflush {
+			c.oracleFail("C03/late-writer/no-rflush", "the Tflush of the executing read was not answered", line)
+		}
+		// the client stops reading; more reads are received, executed and answered
+		atomic.StoreInt32(&s.paused, 1)
+		time.Sleep(time.Millisecond)
+		extra := 2 + r.Intn(7)
+		var more [][]byte
+		var mrids []int
+		for j := 0; j < extra; j++ {
+			fid := uint32(2 + j%5)
+			more = append(more, s.send(uint16(20+j), func(fc *g.Fcall) error { return g.PackTread(fc, fid, 0, 64) }))
+			mrids = append(mrids, base+2+j)
+		}
+		s.write(more...)
+		s.waitEntered(mrids, f0, 2*time.Second)
+		time.Sleep(time.Duration(200+r.Intn(1500)) * time.Microsecond)
+		// now the cancelled worker fills its buffer
+		s.release(base)
+		s.waitExited(2 * time.Second)
+		time.Sleep(time.Duration(r.Intn(500)) * time.Microsecond)
+		atomic.StoreInt32(&s.paused, 0)
+		s.waitFrames(f0+1+extra, 5*time.Second)
+		s.quiet(2 * time.Millisecond)
+		atMostOne := map[int]bool{base: true} // the cancelled read may go unanswered
+		replyOracle(c, s, "C03", line, base, base+2+extra, f0, atMostOne)
+		c.count("late-writer")
+		s.emitLog(c)
+		s.end()
+		c.emit(line, "*", true)
+	}
 }
 
 // rolling: a window of outstanding requests; every reply frees its tag, which is reused at
